@@ -50,6 +50,11 @@ def verify(contract: Contract, registry=None, timeout_s=20, procs=None) -> Funct
     except RecursionError:
         rep.undecided_reason = 'engine recursion limit'
         return rep
+    except Exception as exc:    # noqa  -- an engine limitation must never look like a verdict
+        tb = traceback.format_exc().strip().splitlines()
+        rep.undecided_reason = f'engine error while executing the real source symbolically: {exc!r} ({tb[-3].strip() if len(tb) > 2 else ""})'
+        rep.gen_time = time.time() - t0
+        return rep
     rep.gen_time = time.time() - t0
     rep.vcs = len(obligations)
     results = discharge(obligations, timeout_s=timeout_s, procs=procs)
